@@ -123,6 +123,9 @@ func (e *Engine) binop(in *ssa.BinOp, xv, yv Value) (Value, string) {
 		}
 		return B(!eq), ""
 	case SymStr:
+		if in.Op == token.ADD {
+			return SymStr{kind: "concat", parts: []Value{x, yv}}, ""
+		}
 		if in.Op == token.EQL || in.Op == token.NEQ {
 			eq := e.concreteEq(x, yv)
 			if in.Op == token.EQL {
@@ -132,6 +135,9 @@ func (e *Engine) binop(in *ssa.BinOp, xv, yv Value) (Value, string) {
 		}
 		return nil, "string op " + in.Op.String() + " on symbolic string"
 	case string:
+		if ys, isSym := yv.(SymStr); isSym && in.Op == token.ADD {
+			return SymStr{kind: "concat", parts: []Value{x, ys}}, ""
+		}
 		if ys, isSym := yv.(SymStr); isSym && (in.Op == token.EQL || in.Op == token.NEQ) {
 			_ = ys
 			return B(in.Op == token.NEQ), "" // a literal never equals a formatted value (assumption of the string model)
